@@ -27,6 +27,7 @@ def run(ctx, db, tier):
     summ = publish.Summaries(db)
     publish.check_no_touch(ctx, db, 'C18.publish-discipline', summ, functions=None, per_instance=False, floor=12)
     virtual_delete(ctx, db)
+    callback_coro_owns_arguments(ctx, db)
     # a completion registered through make_promise lives in the promise handle: overwriting or destroying the handle must fire it (with the
     # broken-promise state) and release the helper; re-arming a converter assigns into its parked promise member the same way
     from . import C01
@@ -253,3 +254,20 @@ def virtual_delete(ctx, db):
     ctx.ob(rid, 'cocls::future_with_cb', cs[0]['loc'], all(c.get('virtual_dtor') for c in cs), 'future_with_cb has a virtual destructor (%d instantiations)' % len(cs), desc='future_with_cb destructor is not virtual')
     if ctx.cfg == 'assert':
         witness.positive(ctx, 'C18.types', 'C18_pos.cpp', 'future_with_cb has a virtual destructor; the storage variant derives from it and declares operator delete; adapters are awaiters')
+
+
+def callback_coro_owns_arguments(ctx, db):
+    """callback_await runs the awaited expression inside a helper coroutine.  Registered from a running coroutine the helper's start is only
+    queued: by the time it runs, the registering expression - and every temporary in it - is gone.  What the helper needs it must own"""
+    rid = ctx.rule('C18.callback-coroutine-owns-its-arguments', 'TYPE', '_details::callback_await_coro (the coroutine behind callback_await / callback_await_alloc): the callback and every argument of the '
+                   'awaited expression are taken by value (copied / moved into the frame); only the allocator is a reference', floor=1)
+    seen = set()
+    for f in db.need('cocls::_details::callback_await_coro'):
+        if f['key'] in seen:
+            continue
+        # as declared in the template (an explicit reference type argument - callback_await<Awt &> - is the caller's decision)
+        refs = [p['name'] + ': ' + p['type'] for p in (f.get('pattern_params') or f['params'])[1:] if re.sub(r'\.\.\.$', '', p['type'].rstrip()).rstrip().endswith('&')]
+        if refs or f['key'] not in seen:
+            seen.add(f['key'])
+            ctx.ob(rid, f, f['key'], not refs, 'callback and arguments are owned by the frame' + ('' if not refs else ' -- by reference: ' + ', '.join(refs)),
+                   desc='callback_await_coro keeps references to the caller\'s temporaries (%s)' % ', '.join(r.split(':')[0] for r in refs) if refs else None, inst=f.get('inst'))
